@@ -3,6 +3,7 @@ package main
 import (
 	"fmt"
 	"sort"
+	"strings"
 	"go/token"
 	"go/types"
 	"math/big"
@@ -83,6 +84,18 @@ func (e *fnEnc) instr(c *blockCtx, in ssa.Instruction) {
 		r := e.newRef(c.st, "closure")
 		e.vals[in] = r
 		e.closures[in] = in
+		// identity of the function value: which function, and (for a bound
+		// method value) which receiver
+		fname := strings.TrimSuffix(canonFuncName(in.Fn.(*ssa.Function).String()), "$bound")
+		e.assert(eq(app(SInt, e.funcidFun(), r), intLit(int64(e.eng.funcID(fname)))))
+		if strings.HasSuffix(in.Fn.Name(), "$bound") && len(in.Bindings) == 1 {
+			if _, isLV := e.lvals[in.Bindings[0]]; !isLV {
+				b := e.val(in.Bindings[0])
+				if b.Sort == SInt {
+					e.assert(eq(app(SInt, e.funcrecvFun(), r), b))
+				}
+			}
+		}
 	case *ssa.MakeSlice:
 		e.makeSlice(c, in)
 	case *ssa.MakeMap:
